@@ -895,8 +895,41 @@ fn c10_votes_and_proposals(variant: u8) -> Result<(), String> {
     if !found { return Err(format!("{}: no vote redeemer emitted", tag)); }
     Ok(())
 }
+/// withdrawals of 0 lovelace (the "withdraw zero" pattern that runs a staking validator): every reward redeemer still points at
+/// the account it was attached to, in the body's own map
+fn c10_zero_withdrawal(variant: u8) -> Result<(), String> {
+    let tag = format!("zero-coin withdrawal scenario {}", variant);
+    let scripts: Vec<PlutusScript> = (0..3u8).map(|i| PlutusScript::new_v2(vec![3u8, i, variant])).collect();
+    let coins: [u64; 3] = match variant { 0 => [0, 5, 7], 1 => [5, 0, 7], 2 => [0, 0, 7], _ => [0, 0, 0] };
+    let mut wb = WithdrawalsBuilder::new();
+    for (i, sc) in scripts.iter().enumerate() {
+        let acct = RewardAddress::new(0, &Credential::from_scripthash(&sc.hash()));
+        wb.add_with_plutus_witness(&acct, &bn(coins[i]), &PlutusWitness::new_without_datum(sc, &redeemer_with_marker(&RedeemerTag::new_reward(), 60 + i as u8))).map_err(|_| format!("{}: withdrawal refused", tag))?;
+    }
+    wb.add(&RewardAddress::new(0, &kc(9)), &bn(0)).map_err(|_| format!("{}: key withdrawal refused", tag))?;
+    let mut tb = TransactionBuilder::new(&config(true));
+    let mut ib = TxInputsBuilder::new();
+    ib.add_key_input(&kh(1), &TransactionInput::new(&TransactionHash::from([3u8; 32]), 0), &Value::new(&bn(500_000_000)));
+    tb.set_inputs(&ib);
+    tb.set_withdrawals_builder(&wb);
+    tb.set_fee(&bn(2_000_000));
+    let tx = tb.build_tx_unsafe().map_err(|_| format!("{}: build failed", tag))?;
+    let keys = tx.body().withdrawals().map(|w| w.keys()).ok_or(format!("{}: no withdrawals in the body", tag))?;
+    let reds = tx.witness_set().redeemers().ok_or(format!("{}: no redeemers", tag))?;
+    for i in 0..reds.len() {
+        let r = reds.get(i);
+        if r.tag().kind() != RedeemerTagKind::Reward { continue; }
+        let marker = r.data().as_bytes().map(|b| b[0]).unwrap_or(0);
+        let idx: u64 = r.index().into();
+        let want = RewardAddress::new(0, &Credential::from_scripthash(&scripts[(marker - 60) as usize].hash()));
+        if idx as usize >= keys.len() { return Err(format!("{}: a reward redeemer points at withdrawal #{} of a map with {} entries", tag, idx, keys.len())); }
+        if keys.get(idx as usize).to_address().to_bytes() != want.to_address().to_bytes() { return Err(format!("{}: the reward redeemer of account {} points at withdrawal #{}, which is another account", tag, marker - 60, idx)); }
+    }
+    Ok(())
+}
 pub fn c10_pointers<S: Src>(_s: &mut S) {
     let mut failures = Vec::new();
+    for v in 0..4u8 { if let Err(e) = c10_zero_withdrawal(v) { failures.push(e); } }
     for v in 0..4u8 { if let Err(e) = c10_votes_and_proposals(v) { failures.push(e); } }
     for v in 0..4u8 { if let Err(e) = c10_readd(v) { failures.push(e); } }
     for v in 0..6u8 { if let Err(e) = c10_scenario(v) { failures.push(e); } }
